@@ -213,6 +213,36 @@ def run(tier, seed, rng):
             failures.append(dict(kind='oracle', sig='data-unpack-regex-context', what='a regex-delimited string that does not start at offset 0: not the first match at or after the cursor, decided on the bytes from the cursor on',
                                  classes=[c for c in zsrc.split('class ') if c.startswith(nm + '(')][0].join(['class ', '']), cls=nm, raw=raw.hex(), offset=0,
                                  observed=str(got), required=str(want)))
+    # ---- regex delimiters that can match the EMPTY string (an alternative with $, a starred atom): a present delimiter even when
+    # the field begins exactly at the end of the input (value b'', cursor unchanged) -- never "delimiter missing"
+    ezoo = [rb'X+|$', rb'\r?\n|$', rb'X*', rb'(?:;|$)', rb'$|;', rb'\Z']
+    esrc, ecases, emeta = "", [], []
+    for zi, pat in enumerate(ezoo):
+        for incl in (True, False):
+            for sbl in (None, 2):
+                nm = f"E{zi}{'i' if incl else 'x'}{'w' if sbl else ''}"
+                conf = f"    __bisturi__ = {{'search_buffer_length': {sbl}}}\n" if sbl else ""
+                esrc += f"class {nm}(Packet):\n{conf}    p = Data(1)\n    d = Data(until_marker=re.compile({pat!r}), include_delimiter={incl})\n"
+                for body in (b'', b'a', b'X', b'aX', b'XX', b'a\n', b'a\r\n', b';', b'ab;', b'\n'):
+                    for off in (0, 2):
+                        raw = b'..'[:off] + b'p' + body
+                        ecases.append(dict(cls=nm, op='roundtrip', raw=raw.hex(), offset=off)); emeta.append((nm, pat, incl, sbl, raw, off))
+    eres = run_impl(os.path.join(VERIF, 'harness', 'impl_pkt.py'), dict(header=decl.HEADER_PY, blocks=[dict(name='ezoo', src=esrc)], modname='c06e', cases=ecases))
+    dist['empty_matching_regex_cases'] = len(ecases)
+    for (nm, pat, incl, sbl, raw, off), o in zip(emeta, eres['outcomes']):
+        start = off + 1
+        window = raw[start:] if sbl is None else raw[start:start + sbl]
+        if pat == rb'$' or False:
+            continue
+        m = _re.compile(pat).search(window)
+        want = None
+        if m is not None:
+            want = (raw[start:start + (m.end() if incl else m.start())], start + m.end())
+        got = (bytes.fromhex(dict(o['ok']['f'])['d']['x']), o['end']) if 'ok' in o else None
+        if got != want:
+            failures.append(dict(kind='oracle', sig='data-unpack-regex-empty', what='a regex delimiter that can match the empty string: the value must end at the first match in the search window, the empty match at the end of the input included',
+                                 classes=[c for c in esrc.split('class ') if c.startswith(nm + '(')][0].join(['class ', '']), cls=nm, raw=raw.hex(), offset=off,
+                                 observed=str(got), required=str(want)))
     return dict(evaluations=len(rt), distinct_nontrivial=len({(str(m[0]), m[1], m[2]) for m in meta if len(m[1]) > 1}), exhaustive=True,
                 classes=len(cfgs),
                 rule=("exhaustive: every marker of length 1..3 over {a,b} x include_delimiter x search_buffer_length in {unset,0,1,2,3,4}, "
